@@ -368,6 +368,8 @@ pub struct FileRun {
     pub meta_queried: bool,
     pub trace: ReadTrace,
     pub runaway: bool,
+    /// Set if `hash_file` panicked (the result is then a placeholder error).
+    pub panic: Option<String>,
 }
 
 /// Execute `ssdeep::hash_file` (the real function body) over `spec` + `data`.
@@ -451,10 +453,15 @@ pub fn run_hash_file(data: &[u8], spec: &FileSpec) -> FileRun {
             }) as Box<dyn ssdeep::verif_hooks::SimFile>)),
         }
     })));
-    let result = ssdeep::hash_file("/sim/scripted-file");
+    let guarded_result = crate::core::guarded(|| ssdeep::hash_file("/sim/scripted-file"));
     ssdeep::verif_hooks::set_opener(None);
+    let (result, panic) = match guarded_result {
+        Ok(r) => (r, None),
+        Err(m) => (Err(ssdeep::GeneratorOrIOError::IOError(io::Error::new(ErrorKind::Other, "sim: hash_file panicked"))), Some(m)),
+    };
     let sh = shared.borrow();
     FileRun {
+        panic,
         result,
         opened: sh.opened,
         meta_queried: sh.meta_queried,
